@@ -853,7 +853,7 @@ func init() {
 		notDecided:  []string{"that the decoded automaton has the same words, ranks, node count and search results", "that re-encoding gives the same bytes", "that element counts on the wire match loop counts (regular approximation ignores counts)"},
 		assumptions: []string{"every byte of the output is appended through the recognised primitives (an unrecognised append to the output chain is 'undecided' and fails)"},
 		run: func(c *Ctx, tier string) []*RuleResult {
-			g := &RuleResult{Rule: "GRAMMAR", Doc: "L(GobEncode) ⊆ L(GobDecode) over wire tokens U (varint) and B (raw byte)", MinInst: 10}
+			g := &RuleResult{Rule: "GRAMMAR", Doc: "L(GobEncode) ⊆ L(GobDecode) over wire tokens U (varint) and B (raw byte)", MinInst: 6}
 			ruleGrammar(c, g, "(*dawg.Dawg).GobEncode", "(*dawg.Dawg).GobDecode", "dawg.encodeUint64", "dawg.decodeUint64")
 			v := &RuleResult{Rule: "VARINT", Doc: "encodeUint64 / decodeUint64 agree on threshold, prefix base, lengths, byte order (encoder read as polynomials over x and its number of leading zero bytes)", MinInst: 8}
 			ruleVarint(c, v, "dawg.encodeUint64", "dawg.decodeUint64")
@@ -861,7 +861,7 @@ func init() {
 			ge := c.Fn("(*dawg.Dawg).GobEncode")
 			freshResult(c, fr, ge, 0, nil, nil, "is freshly allocated")
 			noWrites(c, fr, ge, nil, "the Dawg or any shared state")
-			ow := &RuleResult{Rule: "OVERWRITE", Doc: "GobDecode assigns every field of every node on every iteration of a loop (or resets the receiver as a whole): no stale state of a reused receiver survives", MinInst: 5}
+			ow := &RuleResult{Rule: "OVERWRITE", Doc: "GobDecode assigns every field of every node on every iteration of a loop (or resets the receiver as a whole): no stale state of a reused receiver survives", MinInst: 1}
 			ruleOverwrite(c, ow, "(*dawg.Dawg).GobDecode", "dawg", "Dawg")
 			return []*RuleResult{g, v, ow, fr}
 		},
